@@ -338,16 +338,50 @@ def size_list(tier):
 ALIGN_FORMATS = [".z", ".gz", ".bin", ".fits"]  # lengths 2..5: base64 grows in steps of 4, so one of them hits every residue
 
 
+def _measure(direction, L, fmt):
+    """Number of bytes the stack really puts on the wire for one BLOB message (declaration, element, newline):
+    measured on a live stack, not derived from a model of the message (a second element in the vector, another
+    attribute ... would silently move the alignment otherwise)."""
+    from indi.device import values
+
+    st_ = stack.Stack([session.SIMPLE_SPEC, session.SECOND_SPEC], FRAGSETS[0])
+    try:
+        data = payload(L, L)
+        if direction == "down":
+            w = st_.blob.link.b_writer
+            before = len(w.all)
+            st_.in_loop(lambda: setattr(st_.dep.drivers[0].g.bl.a, "value", values.BLOB(data, fmt)))
+            return len(w.all) - before
+        ws = [st_.control.link.a_writer, st_.blob.link.a_writer]
+        before = [len(w.all) for w in ws]
+        st_.client["DEV"]["BLB"]["A"].value = values.BLOB(data, fmt)
+        st_.in_loop(lambda: st_.client["DEV"]["BLB"].submit())
+        return max(len(w.all) - b for w, b in zip(ws, before))
+    finally:
+        st_.close()
+
+
+_ALIGNED = {}
+
+
 def aligned_cases(direction):
-    """(length, format) pairs for which the serialized message (declaration + element + newline) is an exact
-    multiple of the 1024-byte read size, i.e. the last read of the message is a full one."""
-    tag = "setBLOBVector" if direction == "down" else "newBLOBVector"
+    """(length, format) pairs for which the bytes on the wire for the BLOB message are an exact multiple of the
+    1024-byte read size, i.e. the last read of the message is a full one. Candidates come from the measured size at
+    one length per format (+ 4 base64 characters per 3 payload bytes + the digits of the size attribute); every
+    candidate is then measured itself and kept only if it really is aligned."""
+    if direction in _ALIGNED:
+        return _ALIGNED[direction]
+    from harness.core import HarnessError
+
     out = []
     for fmt in ALIGN_FORMATS:
+        const = _measure(direction, 3, fmt) - 4 - 1
         for L in range(0, 1701):
-            total = len('<?xml version="1.0"?>\n') + set_blob_length(payload(L, L), fmt, tag) + 1
-            if total % 1024 == 0:
+            if (const + 4 * ((L + 2) // 3) + len(str(L))) % 1024 == 0 and _measure(direction, L, fmt) % 1024 == 0:
                 out.append([L, fmt])
+    if len(out) < 3:
+        raise HarnessError(f"C08: only {len(out)} read-size-aligned BLOB messages found for direction {direction}")
+    _ALIGNED[direction] = out
     return out
 
 
